@@ -188,6 +188,19 @@ CHECKS = {
         note='A trailing batch with no real row is accepted either way; non-trivial order only for streams >= 10; '
              'empty federated datasets are C08 territory.',
         design='5/C15'),
+    'C16': dict(
+        technique='TLA+ spec Serialization.tla (decision table of the msgpack extension-type dispatch composed over dict / '
+                  'list trees) model-checked by TLC; every enumerated abstract tree instantiated with concrete values of '
+                  'all dtypes / layouts / byte orders and round-tripped; SQLite builder -> reader and server-state '
+                  'checkpoints round-tripped',
+        text='TLC proves on all trees with <= 2 (quick) / 3 (thorough) leaves over 21 leaf kinds that supported trees '
+             'round-trip, unsupported ones are rejected and nothing is silently altered (three deviations reported); each '
+             'abstract tree is executed with random concrete instantiations and the real outcome (equal / rejected / '
+             'altered) must be the specification\'s; datasets written through the SQLite builder are read back twice '
+             '(with an in-place edit of the first result in between) and server states through save_state / checkpoints.',
+        note='The TLA+ contribution is the decision table and the compositional enumeration; value equality is the '
+             'driver projection (type, dtype name, shape, tolist).',
+        design='5/C16'),
     'C17': dict(
         technique='TLA+ spec AlgHistory.tla (sliding-window queue, participants-only state table, own-clusters-only '
                   'updates) model-checked by TLC; multi-round histories of the real agnostic_fed_avg, apfl and '
